@@ -268,6 +268,35 @@ def celsius_cases() -> list[tuple[str, str]]:
         except Exception as ex:
             msg = f"from_kelvin_quantity of {c + 273.15} K written in mK raised {type(ex).__name__}"
         out.append((f"celsius:millikelvin:{c}", msg))
+    # the quantity helper converts temperatures only: every unit of the table (and powers and
+    # quotients of kelvin) whose dimension is not temperature must be refused, every temperature
+    # spelling accepted with the reference value
+    pool = [(n, u, f, d) for n, (u, f, d) in _U.items()]
+    pool += [("kelvin**2", U.kelvin**2, sp.Integer(1), dims.TH**2),
+        ("1/kelvin", 1 / U.kelvin, sp.Integer(1), dims.TH**-1),
+        ("kelvin/meter", U.kelvin / U.meter, sp.Integer(1), dims.TH / dims.L),
+        ("sqrt(kelvin)", sp.sqrt(U.kelvin), sp.Integer(1), dims.TH**Fraction(1, 2)),
+        ("boltzmann*kelvin", U.boltzmann_constant * U.kelvin, None, dims.M * dims.L**2 / dims.T**2),
+        ("milli*kelvin", prefixes.milli * U.kelvin, sp.Rational(1, 1000), dims.TH)]
+    for n, u, f, d in pool:
+        for m in (sp.Rational(5, 2), sp.Integer(300)):
+            try:
+                q = Quantity(m * u)
+            except Exception:
+                continue
+            try:
+                got: Any = from_kelvin_quantity(q).value
+            except Exception as ex:
+                got = ex
+            key = f"celsius:helper-domain:{m}*{n}"
+            if dims.same(d, dims.TH):
+                want = float(m * f) - 273.15
+                ok = not isinstance(got, Exception) and abs(got - want) <= 1e-9 * max(1, abs(want))
+                out.append((key, "" if ok else f"from_kelvin_quantity({m}*{n}) = {short(got)}, "
+                    f"reference {want}"))
+            else:
+                out.append((key, "" if isinstance(got, Exception) else
+                    f"from_kelvin_quantity accepted {m}*{n} of dimension {d} and returned {got}"))
     for kv in (0.0, 1.0, 273.15, 300.0, 5778.0):
         c = from_kelvin(kv).value
         out.append((f"kelvin:offset:{kv}", "" if abs((kv - c) - 273.15) <= 1e-9 else
